@@ -63,6 +63,12 @@ func c16Child() {
 		_ = os.WriteFile(filepath.Join(dir, "result.json"), b, 0o644)
 		return
 	}
+	if mode == "cachewindow" {
+		out.Witness = runCacheWindow(seed, pool, ca, dir)
+		b, _ := json.Marshal(out)
+		_ = os.WriteFile(filepath.Join(dir, "result.json"), b, 0o644)
+		return
+	}
 	if mode == "witness" {
 		out.Witness = runStaleCacheWitness(pool, dir)
 		b, _ := json.Marshal(out)
@@ -151,9 +157,15 @@ func TestC16(t *testing.T) {
 		"a new token is signed with and names the active key of the file's final content, the key set is that content's public set, and the token verifies against the copy of verifier clients that revalidate " +
 		"(If-None-Match / If-Modified-Since with the validators they were given, copy kept on 304) - also when they revalidate although nothing changed. One history configures the key store path in a non-canonical spelling. " +
 		"A final content cut off inside its last PEM entry is a side observation (token must still verify against the key set). " +
+		"(g) key stores whose active key carries a certificate chain with a short remaining lifetime (leaf ending 2 min / 30 s after the store was written, in chains of three also an intermediate certificate " +
+		"ending before the leaf) next to long-lived chains and entries without certificates, with ttls shorter and longer than that lifetime; the reload sequences of the signer histories contain rotations that are " +
+		"rolled back (reload back to the generation before, mostly followed by the rotation once more); a token handed out from the cache must belong to the generation in place when the request started or to one " +
+		"put in place by a reload overlapping it. (h) directed sequences with the real in-memory cache behind a wrapper that lets a reload return while a cache lookup of a token request is pending " +
+		"(request, reload A->B during the lookup, request, reload back to A, request, ...): no reload is in progress when a request returns, so its token must verify against the key set read after it. " +
 		"Lock shims perturb the scheduler between critical sections; race detector on. " +
 		"A history is non-trivial if at least one token operation overlapped a reload.")
-	r.Assume("(a)-(e): key stores are replaced atomically (rename); (f): in-place rewrites always end with a complete valid store, transient states during a rewrite are not judged; a writer that crashes half way is C19's subject",
+	r.Assume("(g): a history in which a short-lived certificate ended before the store carrying it was loaded (checked before and after every load with a margin of 2 s) is not judged (slow machine); certificates that end while their store is in place do not change what the signer does",
+		"(a)-(e): key stores are replaced atomically (rename); (f): in-place rewrites always end with a complete valid store, transient states during a rewrite are not judged; a writer that crashes half way is C19's subject",
 		"e2e: reloads are serialised by the reloader (next store written only after the previous one was observed in a key set or a received token)",
 		"race freedom, linearizability and monotonicity only on the interleavings produced",
 		"wall clock does not step backwards during a run (iat is compared with a bracket of time.Now() readings)")
@@ -195,7 +207,7 @@ func TestC16(t *testing.T) {
 			jobs = append(jobs, job{"signer", 800000 + i, 1, 600, []int{0, 2, 1}[i%3]})
 		}
 	}
-	jobs = append(jobs, job{"witness", 0, 0, 0, 0}, job{"twosigners", 0, 0, 0, 0}, job{"certexpiry", 0, 0, 0, 0})
+	jobs = append(jobs, job{"witness", 0, 0, 0, 0}, job{"twosigners", 0, 0, 0, 0}, job{"certexpiry", 0, 0, 0, 0}, job{"cachewindow", 0, 0, 0, 0})
 	// bursts of replacements arriving while a reload is being processed
 	nStorm, stBatch := r.Pick(24, 600), r.Pick(8, 50)
 	for f, i := 0, 0; f < nStorm; f, i = f+stBatch, i+1 {
@@ -314,6 +326,28 @@ func TestC16(t *testing.T) {
 				}
 				return
 			}
+			if jb.mode == "cachewindow" {
+				if h, ok := co.Witness["harness"]; ok {
+					r.Inconclusive(fmt.Sprintf("reloads completing while a cache lookup is pending: %v", h))
+					return
+				}
+				num := func(k string) int { f, _ := co.Witness[k].(float64); return int(f) }
+				r.Case("reload-completes-while-a-cache-lookup-is-pending", num("reloads_completed_while_a_cache_lookup_was_pending") > 0)
+				for _, k := range []string{"cases", "requests", "requests_answered_from_the_cache", "reloads_completed_while_a_cache_lookup_was_pending"} {
+					r.Count("cachewindow_"+k, num(k))
+				}
+				seen := map[string]bool{}
+				if ps, ok := co.Witness["problems"].([]any); ok {
+					for _, p := range ps {
+						pm, _ := p.(map[string]any)
+						if sig := fmt.Sprint(pm["signature"]); !seen[sig] {
+							seen[sig] = true
+							r.Violation(sig, "reload completing while a cache lookup is pending: "+fmt.Sprint(pm["text"]), pm)
+						}
+					}
+				}
+				return
+			}
 			if jb.mode == "certexpiry" {
 				if h, ok := co.Witness["harness"]; ok {
 					r.Inconclusive(fmt.Sprintf("certificates expiring while the instance runs: %v", h))
@@ -351,6 +385,11 @@ func TestC16(t *testing.T) {
 					r.Set("last_harness_problem", hr.Harness)
 					continue
 				}
+				if hr.NotJudged != "" {
+					// slow machine: a certificate with a short remaining lifetime ended before its store was loaded
+					r.Count(m+"_histories_not_judged_short_lived_chain_ended_meanwhile", 1)
+					continue
+				}
 				idx := -1
 				if hr.Cfg != nil {
 					idx = hr.Cfg.Index
@@ -386,6 +425,14 @@ func TestC16(t *testing.T) {
 				r.Count(m+"_key_sets_fetched_after_token_of_reloaded_generation", hr.AfterTok)
 				r.Count(m+"_generations_relabelling_the_active_key", hr.Relabels)
 				r.Count(m+"_generations_relabelling_the_active_key_and_adding_keys", hr.RelabelsMore)
+				if m == "signer" {
+					r.Count("signer_generations_with_a_short_lived_chain", hr.ShortGens)
+					r.Count("signer_generations_with_an_intermediate_ending_before_the_leaf", hr.ShortInter)
+					r.Count("signer_tokens_with_a_ttl_beyond_the_lifetime_of_the_signing_chain", hr.BeyondChain)
+					r.Count("signer_tokens_with_a_ttl_within_the_lifetime_of_the_signing_chain", hr.WithinChain)
+					r.Count("signer_reloads_back_to_an_earlier_generation", hr.Rollbacks)
+					r.Count("signer_token_ops_with_cache_after_a_rollback", hr.AfterRollback)
+				}
 				if hr.Final != nil {
 					r.Count(m+"_quiescent_token_and_key_set_checks", 1)
 				}
@@ -495,6 +542,11 @@ func TestC16(t *testing.T) {
 	r.Require("rewrite_conditional_requests_answered_304", r.Counter("rewrite_conditional_requests_answered_304"), 1)
 	r.Require("rewrite_rotations_changing_only_key_material_or_certificates", r.Counter("rewrite_rotations_changing_only_key_material_or_certificates"), int64(nRewrite))
 	r.Require("signer_generations_relabelling_the_active_key", r.Counter("signer_generations_relabelling_the_active_key"), int64(nSigner/10))
+	r.Require("signer_tokens_with_a_ttl_beyond_the_lifetime_of_the_signing_chain", r.Counter("signer_tokens_with_a_ttl_beyond_the_lifetime_of_the_signing_chain"), int64(nSigner))
+	r.Require("signer_tokens_with_a_ttl_within_the_lifetime_of_the_signing_chain", r.Counter("signer_tokens_with_a_ttl_within_the_lifetime_of_the_signing_chain"), int64(nSigner))
+	r.Require("signer_reloads_back_to_an_earlier_generation", r.Counter("signer_reloads_back_to_an_earlier_generation"), int64(nSigner))
+	r.Require("cachewindow_reloads_completed_while_a_cache_lookup_was_pending", r.Counter("cachewindow_reloads_completed_while_a_cache_lookup_was_pending"), 6)
+	r.Require("signer_token_ops_with_cache_after_a_rollback", r.Counter("signer_token_ops_with_cache_after_a_rollback"), int64(nSigner))
 	r.End()
 }
 
